@@ -221,3 +221,129 @@ func RunPairResplitCorpus(o *drv.Out, v *Verifier, lim *limiter) {
 	}
 	o.Count(fmt.Sprintf("pair-resplit:trees-with-accepted-forgery=%d", hitTrees))
 }
+
+// lengthResplit builds the "20-byte value" variants of a pair at level j: one of the two values is shortened to 20 bytes
+// (the length only the two reserved leaves may carry) and its other 12 bytes are glued onto the neighbouring key.
+//
+//	variant 0: lv' = lv[:20], rk' = lv[20:]‖rk      variant 1: lv' = lv[12:], lk' = lk‖lv[:12]
+//	variant 2: rv' = rv[12:], rk' = rk‖rv[:12]
+//
+// The stream is byte-identical. A verifier that lets any key other than the exact reserved leaf keys carry a 20-byte
+// value accepts these (seed pending4-C16: an all-zero / all-one PREFIX such as the inner node "0").
+func lengthResplit(honest []*lib.Node, levels [][4][]byte, j, variant, first, n int) ([]*lib.Node, bool) {
+	lk, lv, rk, rv := levels[j][0], levels[j][1], levels[j][2], levels[j][3]
+	if len(lv) != 32 || len(rv) != 32 {
+		return nil, false
+	}
+	var lk2, lv2, rk2, rv2 []byte
+	switch variant {
+	case 0:
+		lk2, lv2, rk2, rv2 = lk, lv[:20], append(bytes.Clone(lv[20:]), rk...), rv
+	case 1:
+		lk2, lv2, rk2, rv2 = append(bytes.Clone(lk), lv[:12]...), lv[12:], rk, rv
+	default:
+		lk2, lv2, rk2, rv2 = lk, lv, append(bytes.Clone(rk), rv[:12]...), rv[12:]
+	}
+	if _, ok := keyBits(lk2, n); !ok {
+		return nil, false
+	}
+	if _, ok := keyBits(rk2, n); !ok {
+		return nil, false
+	}
+	var forged []*lib.Node
+	if first == 0 {
+		forged = []*lib.Node{{Key: bytes.Clone(lk2), Value: bytes.Clone(lv2)}, {Key: bytes.Clone(rk2), Value: bytes.Clone(rv2), Bitmask: 1}}
+	} else {
+		forged = []*lib.Node{{Key: bytes.Clone(rk2), Value: bytes.Clone(rv2)}, {Key: bytes.Clone(lk2), Value: bytes.Clone(lv2), Bitmask: 0}}
+	}
+	for _, x := range honest[j+1:] {
+		forged = append(forged, &lib.Node{Key: bytes.Clone(x.Key), Value: bytes.Clone(x.Value), Bitmask: x.Bitmask})
+	}
+	return forged, true
+}
+
+// RunLengthResplitCorpus: permanent corpus for the 20-byte-value re-split on the first small trees (every level, the
+// three variants, both orientations, victims = every key of the tree). Hard failure
+// C16:forged-proof-accepted-as-nonmembership when accepted: only the exact reserved leaf keys may carry 20 bytes.
+func RunLengthResplitCorpus(o *drv.Out, v *Verifier, lim *limiter) {
+	const n = 160
+	mk := func(tree, q int) c08.UKey {
+		var b [8]byte
+		binary.BigEndian.PutUint32(b[:4], uint32(tree))
+		binary.BigEndian.PutUint32(b[4:], uint32(q))
+		k := lib.JoinLenPrefix([]byte{0xCB}, b[:])
+		h := sha256.Sum256(k)
+		return c08.UKey{User: k, Bits: c08.BitsOf(h[:], n)}
+	}
+	trees := 10
+	if o.Tier == "thorough" {
+		trees = 60
+	}
+	for tr := 0; tr < trees; tr++ {
+		t, err := c08.NewTree(n)
+		if err != nil {
+			panic(err)
+		}
+		var ws []c08.Write
+		state := map[string][]byte{}
+		for q := 0; q < 5+tr%8; q++ {
+			k := mk(tr, q)
+			val := []byte(fmt.Sprintf("w-%d", q))
+			ws = append(ws, c08.Write{K: k, Val: val})
+			state[k.Bits] = val
+		}
+		if res := t.Commit(false, ws); res != "ok" {
+			panic(res)
+		}
+		root := t.SMT().Root()
+		line := c08.OpLine(false, ws)
+		o.Case(fmt.Sprintf("corpus length-resplit tree %d (%d keys)", tr, len(ws)))
+		o.Op("new 160", fmt.Sprintf("root %s nodes 3 l0 same", drv.Hex(func() []byte { t0, _ := c08.NewTree(n); defer t0.Close(); return t0.SMT().Root() }())))
+		m := c08.Sentinels(n)
+		for b, val := range state {
+			h := sha256.Sum256(val)
+			m[b] = h[:]
+		}
+		ref, _ := c08.RefRoot(m)
+		l0 := "differs"
+		if bytes.Equal(ref, root) {
+			l0 = "same"
+		}
+		o.Op(line, fmt.Sprintf("root %s nodes %d l0 %s", drv.Hex(root), t.NodeCount(), l0))
+		replay := func(call string) map[string]any {
+			return map[string]any{"key_bits": n, "history": []string{line}, "call": call}
+		}
+		seen := map[string]bool{}
+		for _, w := range ws {
+			honest, e := t.SMT().GetMerkleProof(w.K.User)
+			if e != nil {
+				continue
+			}
+			levels, ok := pairLevels(honest, n)
+			if !ok {
+				continue
+			}
+			for j := 1; j < len(honest); j++ {
+				for variant := 0; variant < 3; variant++ {
+					for first := 0; first < 2; first++ {
+						forged, ok := lengthResplit(honest, levels, j, variant, first, n)
+						if !ok {
+							continue
+						}
+						fs := ShowProof(forged)
+						if seen[fs] {
+							continue
+						}
+						seen[fs] = true
+						kind := fmt.Sprintf("length-resplit[level %d]v%d/%d", j, variant, first)
+						for _, vw := range ws {
+							verifyAndJudge(o, v, lim, n, root, state, replay, kind, statement{vw.K, nil, false}, fs, false)
+						}
+						verifyAndJudge(o, v, lim, n, root, state, replay, kind, statement{w.K, w.Val, true}, fs, false)
+					}
+				}
+			}
+		}
+		t.Close()
+	}
+}
